@@ -161,8 +161,9 @@ NAME = {"chat": "ChatFromSimulator", "ping": "StartPingCheck"}
 
 
 def kind_name(kind: str) -> str:
-    """'chat' | 'ping' | 'ping@K' (a StartPingCheck whose OldestUnacked field is K; plain 'ping' carries 0)."""
-    return NAME[kind.split("@")[0]]
+    """'chat' | 'ping' | 'ping@K' (a StartPingCheck whose OldestUnacked field is K; plain 'ping' carries 0) | 'ping!'
+    (how a received ping@K is remembered: its K is forgotten, and therefore it is never duplicated)."""
+    return NAME[kind.split("@")[0].rstrip("!")]
 
 
 def kind_ou(kind: str) -> int:
@@ -281,6 +282,12 @@ class World:
         self.ctx = install(self.loop, clock_modules=[circuit_mod])
         if _PREV_LOOP is not None and not _PREV_LOOP.is_closed():
             try:
+                # wind down the previous world's harness tasks (cfg queue consumers) before its loop goes away, so
+                # that nothing is finalised against a closed loop ("Event loop is closed" noise on stderr)
+                for t in getattr(_PREV_LOOP, "c19_tasks", ()):
+                    t.cancel()
+                if getattr(_PREV_LOOP, "c19_tasks", ()):
+                    _PREV_LOOP.run_ready()
                 _PREV_LOOP.close()
             except Exception:
                 pass
@@ -407,7 +414,9 @@ class World:
                 while True:
                     msg = await get()
                     self.qlog.append((level, msg.packet_id))
-            self._queue_cms.append(self.loop.create_task(_consume()))
+            task = self.loop.create_task(_consume())
+            self._queue_cms.append(task)
+            self.loop.c19_tasks = getattr(self.loop, "c19_tasks", []) + [task]
 
     def _make_selfunsub(self, level, key, form):
         def _leaver(msg):
@@ -461,6 +470,8 @@ class Harness:
         for p in ids:
             if p in w.peer:
                 kind, rel = w.peer[p]
+                if kind == "ping!":
+                    continue  # a ping that carried a non-zero OldestUnacked is not offered again (keeps K out of the state)
                 if kind == "chat":
                     variants = ((0, 0), (1, 0)) if rel else ((0, 0),)
                 else:
@@ -815,11 +826,13 @@ class Harness:
         if kind == "R":
             _, p, k, rel, resent, defer, _dev = ev
             first = p not in w.peer
+            if "@" in k:
+                assert first and not rel
             if not first:
                 assert w.peer[p] == (k, rel), f"id {p} was {w.peer[p]}, event says {(k, rel)}"
                 if rel:
                     w.dup_receipts += 1
-            w.peer.setdefault(p, (k, rel))
+            w.peer.setdefault(p, ("ping!" if "@" in k else k, rel))
             w.max_peer = max(w.max_peer, p)
             flags = (F_REL if rel else 0) | (F_RESENT if resent else 0)
             data = peer_datagram(kind_name(k), p, flags, text=w.text(p), ping=p, ou=kind_ou(k))
